@@ -45,7 +45,7 @@ def parse_state_type(code):
     return fields
 
 
-def driver_source(module, fields, init_args, n_calls, overrides=None, shutdown=True, arrays=None):
+def driver_source(module, fields, init_args, n_calls, overrides=None, shutdown=True, arrays=None, shapes=None):
     """init_args: {fortran keyword: python float or list}.  overrides: {call index: {field: value}} applied before
     that run call (lets the history control guards per call)."""
     L = []
@@ -56,18 +56,24 @@ def driver_source(module, fields, init_args, n_calls, overrides=None, shutdown=T
     A("  type(dagrt_state_type), target :: st")
     A("  type(dagrt_state_type), pointer :: sp")
     A("  integer :: k, j")
+    shapes = shapes or {}
     for name, val in init_args.items():
         if isinstance(val, (list, tuple)):
             A("  real*8, dimension(%d) :: in_%s" % (len(val), name))
+            if name in shapes:
+                # a user type laid out with several axes: the same values, in memory order
+                A("  real*8, dimension(%s) :: in2_%s" % (",".join(str(d) for d in shapes[name]), name))
     A("  sp => st")
     for name, val in init_args.items():
         if isinstance(val, (list, tuple)):
             for i, v in enumerate(val):
                 A("  in_%s(%d) = %s" % (name, i + 1, fnum(v)))
+            if name in shapes:
+                A("  in2_%s = reshape(in_%s, (/ %s /))" % (name, name, ", ".join(str(d) for d in shapes[name])))
     args = ["dagrt_state=sp"]
     for name, val in init_args.items():
         if isinstance(val, (list, tuple)):
-            args.append("%s=in_%s" % (name, name))
+            args.append("%s=%s_%s" % (name, "in2" if name in shapes else "in", name))
         else:
             args.append("%s=%s" % (name, fnum(val)))
     A("  call initialize(%s)" % ", &\n    ".join(args))
@@ -111,9 +117,8 @@ def dump(L, fields):
             test = "associated" if cls == "pointer-array" else "allocated"
             A("  if (%s(st%%%s)) then" % (test, name))
             A("    write(*,'(A,I0,A,I0)') 'F %s A ', size(st%%%s), ' ', lbound(st%%%s, 1)" % (name, name, name))
-            A("    do j = lbound(st%%%s, 1), ubound(st%%%s, 1)" % (name, name))
-            A("      write(*,'(A,ES25.17E3)') '  E ', st%%%s(j)" % name)
-            A("    end do")
+            # all elements in memory order, one per record (format reversion), whatever the rank
+            A("    write(*,\"('  E ',ES25.17E3)\") st%%%s" % name)
             A("  else")
             A("    write(*,'(A)') 'F %s N'" % name)
             A("  end if")
